@@ -469,6 +469,10 @@ func Mul(a, b *Term) *Term {
 		if b.Val.Cmp(big.NewInt(1)) == 0 {
 			return a
 		}
+		// multiplication by a power of two is a shift (far cheaper for the bit-vector solvers)
+		if b.Val.Sign() > 0 && new(big.Int).And(b.Val, new(big.Int).Sub(b.Val, big.NewInt(1))).Sign() == 0 {
+			return BVOp("bvshl", a, BVI(w, int64(b.Val.BitLen()-1)))
+		}
 	}
 	return bvbin("bvmul", a, b)
 }
